@@ -127,7 +127,7 @@ template<class A> static bool replay_script(const JV&rec,size_t shard,int how){
 VH_DRIVER(session){
   std::string mode=arg_value(argc,argv,"--mode","random"); long n=atol(arg_value(argc,argv,"--n",g.thorough?"20000":"1500")); Rng R(g.seed);
   if(mode=="random"){ std::vector<Text> pool=corpus_uris(R,false,300); int steps=atoi(arg_value(argc,argv,"--steps",g.thorough?"30":"20"));
-    for(long i=0;i<n;++i){ if(i%2) random_episode<ApiA>(R,steps,(size_t)i,pool); else random_episode<ApiW>(R,steps,(size_t)i,pool); if(i%501==0) g.sample(J().str("episode","random session").num("steps",steps).num("index",i).done()); }
+    for(long i=0;i<n;++i){ if(g.pair){ Rng R2=R; AW(true,true,[&]{ random_episode<ApiA>(R,steps,(size_t)i,pool); },[&]{ random_episode<ApiW>(R2,steps,(size_t)i,pool); },(size_t)i); } else if(i%2) random_episode<ApiA>(R,steps,(size_t)i,pool); else random_episode<ApiW>(R,steps,(size_t)i,pool); if(i%501==0) g.sample(J().str("episode","random session").num("steps",steps).num("index",i).done()); }
   } else { auto lines=read_lines(arg_value(argc,argv,"--script","")); long k=0; for(auto&l:lines){ bool ok=true; JV rec=jparse_line(l,&ok); if(!ok||!rec.has("script")) continue; ++k;
       if(k%2) replay_script<ApiA>(rec,(size_t)k,(int)(k%3)); else replay_script<ApiW>(rec,(size_t)k,(int)(k%3)); if(k%997==0) g.sample(J().raw("script",rec["script"].dump()).done()); } }
   return 0;
